@@ -432,15 +432,21 @@ class FieldStorage:
         if has_read > max_read:
             raise BodySizeError('Max in-memory read limit exceed')
         src.seek(start)
-        headers_raw = src.read(sz).decode()
-        for header_raw in headers_raw.splitlines():
-            header = self.parse_header(header_raw)
-            self.headers[header.name] = header
-            if header.name == 'Content-Disposition':
-                self.name = header.options['name']
-                self.filename = header.options.get('filename')
-            elif header.name == 'Content-Type':
-                self.ctype = header.value
+        header_raw = None
+        try:
+            headers_raw = src.read(sz).decode()
+            for header_raw in headers_raw.splitlines():
+                header = self.parse_header(header_raw)
+                self.headers[header.name] = header
+                if header.name == 'Content-Disposition':
+                    self.name = header.options['name']
+                    self.filename = header.options.get('filename')
+                elif header.name == 'Content-Type':
+                    self.ctype = header.value
+        except (ValueError, KeyError, StopIteration) as exc:  # incl. UnicodeDecodeError
+            raise BodyParsingError(
+                f'Malformed header while parsing multipart/formdata body: {header_raw}'
+            ) from exc
 
         if self.name is None:
             raise BodyParsingError(f'Noname field found while parsing multipart/formdata body: {header_raw}')
@@ -455,7 +461,10 @@ class FieldStorage:
                 if has_read > max_read:
                     raise BodySizeError('Max in-memory read limit exceed')
                 src.seek(start)
-                self.value = src.read(sz).decode()
+                try:
+                    self.value = src.read(sz).decode()
+                except UnicodeDecodeError as exc:
+                    raise BodyParsingError(f'Field `{self.name}`: value is not valid UTF-8') from exc
             else:
                 self.value = ''
         return has_read
